@@ -41,6 +41,7 @@ type c07Op struct {
 	GType int    `json:"gt,omitempty"`    // grant: 1 shell, 2 command, 3 local PF, 4 remote PF, other = unknown
 	Cmd   int    `json:"cmd,omitempty"`   // grant/request: base command
 	Var   int    `json:"var,omitempty"`   // grant/request: text variant of the base command
+	Len   int    `json:"len,omitempty"`   // grant/request: index into c07Lens - the base command is extended to exactly that many bytes before the variant is applied (0 = the short text)
 	Start int    `json:"start,omitempty"` // grant: seconds on the case clock
 	Exp   int    `json:"exp,omitempty"`
 	// sub-second parts (milliseconds 0..999, added to Start / Exp / Dt): grant times and the clock have
@@ -78,8 +79,32 @@ const (
 
 var c07VarName = [...]string{"equal", "prefix", "suffix", "extra-args", "case-variant", "trailing-blank", "leading-blank", "inner-blank", "empty", "trailing-nul"}
 
-func c07Text(cmd, variant int) string {
+// c07Lens: lengths of command texts at and around the limit of the protocol's length-prefixed strings
+// (common.MaxStringLen = 255: the longest command text an intent can carry; an exec request carries a 32-bit
+// length): one below, at, one above, well above. Index 0 = the short base text as it is.
+var c07Lens = []int{0, 254, 255, 256, 300}
+
+// c07LenBias: most texts stay short
+var c07LenBias = []int{0, 0, 0, 0, 0, 0, 1, 2, 2, 3, 4}
+
+// c07LongBase extends base command cmd to exactly n bytes with a filler that depends on the position only, so
+// the long texts of one base command are proper prefixes of each other (254 < 255 < 256 < 300) and a variant of
+// one differs from it only at or beyond its last byte. The filler avoids every character the variants add.
+func c07LongBase(cmd, n int) string { return c07Pad(c07Base[cmd%len(c07Base)], n) }
+
+func c07Pad(base string, n int) string {
+	b := []byte(base + " # ")
+	for i := len(b); i < n; i++ {
+		b = append(b, byte('a'+i%23)) // a..w
+	}
+	return string(b[:n])
+}
+
+func c07Text(cmd, variant, ln int) string {
 	b := c07Base[cmd%len(c07Base)]
+	if n := c07Lens[ln%len(c07Lens)]; n > 0 {
+		b = c07LongBase(cmd, n)
+	}
 	switch variant {
 	case c07Prefix:
 		return b[:len(b)-1]
@@ -299,7 +324,7 @@ func c07Run(c c07Case, v *vlib.Verdict) {
 			user := verifAuthzUsers[op.User%len(verifAuthzUsers)]
 			uk := c07UK{user, op.Key}
 			gt := authgrants.GrantType(op.GType)
-			text := c07Text(op.Cmd, op.Var)
+			text := c07Text(op.Cmd, op.Var, op.Len)
 			startMs, expMs := int64(op.Start)*1000+int64(op.StartMs), int64(op.Exp)*1000+int64(op.ExpMs)
 			in := verifAuthzIntent(user, op.Key, gt, text, verifAuthzAtMs(startMs), verifAuthzAtMs(expMs))
 			if err := z.S.AddAuthGrant(in); err != nil {
@@ -313,6 +338,9 @@ func c07Run(c c07Case, v *vlib.Verdict) {
 			stored[uk] = append(stored[uk], g)
 			consumed[uk] = false
 			labels[fmt.Sprintf("grant:type=%d", op.GType)] = true
+			if gt == authgrants.Command && op.Len%len(c07Lens) != 0 {
+				labels[fmt.Sprintf("grant:command-text-of-%d-bytes", len(text))] = true
+			}
 			switch {
 			case expMs <= startMs:
 				labels["grant:empty-interval"] = true
@@ -421,7 +449,7 @@ func c07Run(c c07Case, v *vlib.Verdict) {
 				continue
 			}
 			s := sessions[op.Sess%len(sessions)]
-			text := c07Text(op.Cmd, op.Var)
+			text := c07Text(op.Cmd, op.Var, op.Len)
 			switch op.PF % 3 {
 			case 1:
 				text, op.Shell = c07PFLocal, false
@@ -443,6 +471,20 @@ func c07Run(c c07Case, v *vlib.Verdict) {
 						labels["request:exactly-at-expiry"] = true
 					case now > g.Exp && floor(now) == floor(g.Exp):
 						labels["request:in-the-second-of-the-expiry-but-after-it"] = true
+					}
+				}
+			}
+			if !op.Shell && op.PF%3 == 0 {
+				// texts that agree with a granted text up to a length limit and differ beyond it (either way round)
+				for _, g := range s.live {
+					if g.Type != authgrants.Command || g.Cmd == text {
+						continue
+					}
+					switch {
+					case strings.HasPrefix(text, g.Cmd) && len(g.Cmd) >= 200:
+						labels[fmt.Sprintf("request:granted-text-of-%d-bytes-plus-a-suffix", len(g.Cmd))] = true
+					case strings.HasPrefix(g.Cmd, text) && len(text) >= 200:
+						labels[fmt.Sprintf("request:%d-byte-proper-prefix-of-a-granted-text", len(text))] = true
 					}
 				}
 			}
@@ -472,6 +514,9 @@ func c07Run(c c07Case, v *vlib.Verdict) {
 			}
 			removed, added := c07Minus(s.live, after), c07Minus(after, s.live)
 			kind := "command:" + c07VarName[op.Var%c07NVars]
+			if n := c07Lens[op.Len%len(c07Lens)]; n > 0 {
+				kind += fmt.Sprintf(":of-a-%d-byte-text", n)
+			}
 			if op.Shell {
 				kind = "shell"
 			}
@@ -594,6 +639,8 @@ func c07GenGrant(t *rapid.T, cast []int) c07Op {
 	if op.GType == 2 {
 		op.Cmd = rapid.IntRange(0, len(c07Base)-1).Draw(t, "cmd")
 		op.Var = rapid.SampledFrom([]int{0, 0, 0, 0, 0, 0, c07Empty, c07TrailBlank, c07Prefix}).Draw(t, "var")
+		// texts at and around the string-length limit (254, 255, 256, 300 bytes)
+		op.Len = rapid.SampledFrom(c07LenBias).Draw(t, "len")
 	}
 	switch rapid.IntRange(0, 3).Draw(t, "timing") {
 	case 0, 1: // comfortably valid around the start of the case
@@ -666,9 +713,21 @@ func c07Gen(t *rapid.T) c07Case {
 			op.Cmd = rapid.IntRange(0, len(c07Base)-1).Draw(t, "cmd")
 			if mode < 6 { // the exact text of a grant drawn earlier
 				g := rapid.SampledFrom(granted).Draw(t, "like")
-				op.Cmd, op.Var = g.Cmd, g.Var
+				op.Cmd, op.Var, op.Len = g.Cmd, g.Var, g.Len
 			} else {
 				op.Var = rapid.IntRange(1, c07NVars-1).Draw(t, "var")
+				switch rapid.IntRange(0, 3).Draw(t, "len-like") {
+				case 0: // a length of its own
+					op.Len = rapid.SampledFrom(c07LenBias).Draw(t, "len")
+				case 1, 2: // base and length of a grant drawn earlier: the variant departs from that text at its very end (request = granted text + suffix, or minus its last byte)
+					g := rapid.SampledFrom(granted).Draw(t, "like")
+					op.Cmd, op.Len = g.Cmd, g.Len
+				default: // base of a grant drawn earlier at ANOTHER length around the limit: one text is a proper prefix of the other (request longer or grant longer)
+					g := rapid.SampledFrom(granted).Draw(t, "like")
+					op.Cmd = g.Cmd
+					op.Len = rapid.IntRange(1, len(c07Lens)-1).Draw(t, "len")
+					op.Var = rapid.SampledFrom([]int{c07Equal, c07Equal, c07Suffix, c07Prefix, c07Args}).Draw(t, "var-long")
+				}
 			}
 		case "advance":
 			op.Dt = rapid.SampledFrom([]int{0, 1, 1, 2, 3, 5, 10}).Draw(t, "dt")
@@ -688,16 +747,28 @@ func c07Gen(t *rapid.T) c07Case {
 // ---------------------------------------------------------------------------
 
 func c07SelfTest(t *testing.T) {
-	seen := map[string]bool{}
-	for cmd := range c07Base {
-		for vr := 0; vr < c07NVars; vr++ {
-			s := c07Text(cmd, vr)
-			if vr != c07Empty && seen[s] {
-				t.Fatalf("VERIF-MACHINERY command variants collide on %q", s)
+	for ln := range c07Lens {
+		seen := map[string]bool{} // within one length: all variants of all bases differ
+		for cmd := range c07Base {
+			base := c07Text(cmd, c07Equal, ln)
+			if n := c07Lens[ln]; n > 0 && (len(base) != n || !strings.HasPrefix(base, c07Base[cmd]+" ")) {
+				t.Fatalf("VERIF-MACHINERY long text of %q for length %d has %d bytes", c07Base[cmd], n, len(base))
 			}
-			seen[s] = true
-			if vr != c07Equal && s == c07Base[cmd] {
-				t.Fatalf("VERIF-MACHINERY variant %s of %q equals the base text", c07VarName[vr], s)
+			if ln > 1 && !strings.HasPrefix(base, c07Text(cmd, c07Equal, ln-1)) {
+				t.Fatalf("VERIF-MACHINERY the %d-byte text of %q does not start with its %d-byte text", c07Lens[ln], c07Base[cmd], c07Lens[ln-1])
+			}
+			for vr := 0; vr < c07NVars; vr++ {
+				s := c07Text(cmd, vr, ln)
+				if vr != c07Empty && seen[s] {
+					t.Fatalf("VERIF-MACHINERY command variants collide on %q", s)
+				}
+				seen[s] = true
+				if vr != c07Equal && s == base {
+					t.Fatalf("VERIF-MACHINERY variant %s of %q equals the base text", c07VarName[vr], s)
+				}
+				if vr == c07Suffix && (!strings.HasPrefix(s, base) || len(s) != len(base)+1) {
+					t.Fatalf("VERIF-MACHINERY suffix variant of the %d-byte text", len(base))
+				}
 			}
 		}
 	}
